@@ -318,7 +318,7 @@ static int run_one(const char *text, char mode, const char *errpath, tally_t *t,
   sb_printf(&full, "# mode=%c\n%s", mode, text);
   runarg_t a = { full.s };
   child_res_t cr;
-  eng_fork_run(child_run, &a, errpath, 60, &cr);
+  eng_fork_run(child_run, &a, errpath, 30, &cr);
   t->children++;
   t->fate[cr.fate]++;
   long v = sim_shared->aux[3];
@@ -641,7 +641,7 @@ static int cmd_exec(int argc, char **argv) {
   if (mm) mode = mm[7];
   runarg_t a = { text };
   child_res_t cr;
-  eng_fork_run(child_run, &a, errpath, 60, &cr);
+  eng_fork_run(child_run, &a, errpath, 30, &cr);
   const char *vc = judge(&cr, mode);
   char buf[300];
   eng_first_line_matching(errpath, "rror", buf, sizeof buf);
